@@ -101,6 +101,44 @@ Bind(s, c) ==
         kw |-> IF s.kw THEN KwArgs(s, c) ELSE {}]
 
 -----------------------------------------------------------------------------
+(* A call with an INDEFINITE splat:  f(p1, .., p<npos>, *xs, k=..)  where len(xs) is not known  *)
+(* before run time.  CPython binds [npos + len(xs), kws]; the elements of xs are positional     *)
+(* actuals like any other.  So the outcome of the call shape c = [npos, kws] (npos = the fixed  *)
+(* positionals in front of the splat) is a set of outcomes, one per length; a checker can be    *)
+(* held to the call only where EVERY length agrees:                                             *)
+(*   "err"      every length raises TypeError (a required keyword-only parameter is not passed, *)
+(*              an unknown keyword, the fixed positionals alone are too many, ...)              *)
+(*   "binds"    every length binds                                                              *)
+(*   "depends"  some length binds and some raises: not judged                                   *)
+(* Lengths 0 .. maxlen are examined; NPosParams(s) + 1 is enough (SplatSaturates: a longer xs   *)
+(* gives the outcome of that length).                                                          *)
+SplatAt(c, len) == [npos |-> c.npos + len, kws |-> c.kws]
+SplatKinds(s, c, maxlen) == {ErrKind(s, SplatAt(c, len)) : len \in 0 .. maxlen}
+SplatOutcome(s, c, maxlen) ==
+  LET ks == SplatKinds(s, c, maxlen) IN
+  IF ks = {"none"} THEN "binds" ELSE IF "none" \notin ks THEN "err" ELSE "depends"
+(* why every length fails: the error kinds that occur over the lengths, joined by "+" (e.g.    *)
+(* def f(b1, b2, *va) called with *xs and b1=..: length 0 lacks b2, every other length gives b1 *)
+(* twice: "keyword+missing")                                                                    *)
+SplatCause(s, c, maxlen) ==
+  LET ks == SplatKinds(s, c, maxlen)
+      ord == <<"keyword", "too_many", "missing", "missing_kwonly">>
+      F[j \in 0 .. 4] ==
+        IF j = 0 THEN ""
+        ELSE IF ord[j] \notin ks THEN F[j - 1]
+        ELSE IF F[j - 1] = "" THEN ord[j] ELSE F[j - 1] \o "+" \o ord[j] IN
+  F[4]
+SplatLen(s) == NPosParams(s) + 1
+SplatSaturates(s, c, maxlen) ==
+  \A len \in SplatLen(s) .. maxlen : ErrKind(s, SplatAt(c, len)) = ErrKind(s, SplatAt(c, SplatLen(s)))
+(* causes that do not depend on the splat make every length fail *)
+SplatLaws(s, c, maxlen) ==
+  /\ SplatSaturates(s, c, maxlen)
+  /\ (MissingKo(s, c) # {} \/ Unexpected(s, c) # {} \/ PosOnlyAsKw(s, c) # {} \/ Multiple(s, c) # {} \/ TooMany(s, c))
+        => SplatOutcome(s, c, maxlen) = "err"
+  /\ SplatOutcome(s, c, maxlen) = "binds" => (ErrKind(s, c) = "none" /\ s.va)
+
+-----------------------------------------------------------------------------
 (* Laws of a successful binding *)
 
 BindLaws(s, c) ==
